@@ -59,6 +59,7 @@ class M:
         self.known = known          # names of translated methods
         self.calls = []
         self.uses_z = 0
+        self.uses_cb = 0
 
     def bail(self, node, why):
         raise P.Untranslatable("Reconnector.%s line %s: %s: %s" % (self.f.name, getattr(node, "lineno", "?"), why,
@@ -154,7 +155,8 @@ class M:
         if txt == "rref.notifyOnDisconnect(self._disconnected)":
             return "watch"
         if txt == "cb(rref, *args, **kwargs)":
-            return "user_callback"
+            self.uses_cb += 1
+            return "(user_callback cbk)"
         if txt == "self._tub._removeReconnector(self)":
             return "remove_from_tub"
         if isinstance(st, ast.Assign) and len(st.targets) == 1 and ast.unparse(st.targets[0]) == "self._delay":
@@ -247,7 +249,7 @@ def generate():
                 raise P.Untranslatable("%s is no longer a pure accessor" % nm)
     expect_args = {"__init__": ["self", "url", "cb", "args", "kwargs"], "startConnecting": ["self", "tub"],
                    "_connected": ["self", "rref"], "_failed": ["self", "f"]}
-    trans, deps, usez = {}, {}, {}
+    trans, deps, usez, usecb = {}, {}, {}, {}
     for nm in METHODS:
         if nm not in defs:
             raise P.Untranslatable("Reconnector.%s not found" % nm)
@@ -260,6 +262,7 @@ def generate():
         trans[nm] = m.block(f.body)
         deps[nm] = m.calls
         usez[nm] = m.uses_z
+        usecb[nm] = m.uses_cb
         if m.uses_z > 1:
             raise P.Untranslatable("Reconnector.%s draws more than one random number" % nm)
     # only _failed may draw; a caller of a drawing method would need the draw too
@@ -268,6 +271,12 @@ def generate():
             raise P.Untranslatable("Reconnector.%s draws a random number" % nm)
         if "_failed" in deps[nm]:
             raise P.Untranslatable("Reconnector.%s calls _failed directly" % nm)
+        # the user callback is invoked from _connected only (exactly once on its active path); the actions it
+        # performs re-entrantly are a parameter of the translated method
+        if usecb[nm] != (1 if nm == "_connected" else 0):
+            raise P.Untranslatable("Reconnector.%s invokes the user callback %d times" % (nm, usecb[nm]))
+        if "_connected" in deps[nm]:
+            raise P.Untranslatable("Reconnector.%s calls _connected directly" % nm)
     done, order = set(), []
 
     def visit(nm, stack=()):
@@ -282,7 +291,7 @@ def generate():
     for nm in METHODS:
         visit(nm)
     for nm in order:
-        zarg = " (z : Q)" if nm == "_failed" else ""
+        zarg = " (z : Q)" if nm == "_failed" else (" (cbk : act)" if nm == "_connected" else "")
         out.append("(* Reconnector.%s, line %d *)\nDefinition m_%s%s : act :=\n  %s." % (nm, defs[nm].lineno, nm, zarg, trans[nm]))
 
     # ---- initial state: __init__ must assign all five fields; ReconnectionInfo starts "unstarted"
